@@ -35,6 +35,16 @@ PROPS = {
         "assumptions": ["the converter is well formed (Converter.wf: best lists hold units of their own quantity, every unit has a key, fractions configurations within new_approx's documented preconditions); decided for the generated bundled converter (C09_bundled_wf), for other converters it is C16's invariant",
                         "oracle values are finite with magnitude in [1e-9, 1e12] or zero (outside that range f64 overflow/underflow makes 'within floating-point tolerance' meaningless); non-finite and extreme values are compared with the model only"],
     },
+    "C08": {
+        "gen": [CONSTS, UNITS],
+        "trusted_base": COMMON_TB + [FLOAT_TB,
+            "translators/gen_units.py and gen_consts.py (the converter used for fitting after scaling; see C09)",
+            "the parsed recipe is an input of the model: the harness sends the quantities the real parser produced (value bits, units, Fixed/Linear), so the parser is not part of this check except for the Linear/Fixed decision, which is modelled (mkScalable) and compared on what the generator wrote",
+            "modelled, not verified: serde's JSON image is used by the oracle to state 'everything else is byte-equal'"],
+        "assumptions": ["the converter satisfies the builder's invariants (Converter.Sound; decided for the bundled converter, C09_bundled_sound)",
+                        "oracle: finite positive factors, values and products with magnitude in [1e-9, 1e12] or zero; other factors (0 servings, huge values) are compared with the model only",
+                        "for units with an offset (°C, °F) 'multiplied by f' is read as: the written value is multiplied by f (amount of f·v in the written unit); for all other units this is f times the physical amount"],
+    },
     "C04": {
         "gen": [CONSTS, CHARTABLE],
         "trusted_base": COMMON_TB + SYNTAX_TB,
